@@ -35,6 +35,16 @@ def join_rule(prog, rep, ctx):
             okc = False
             continue
         idx = strip_epochs(e.index)
+        if idx == ("slc", C(None), C(None), C(None)):
+            # self._bins[:] = second._bins : every cell becomes the operand's cell - the sum, exactly where every own cell is known to be 0
+            own_zero = any((not c.truth) and strip_epochs(c.atom) == ("call", ("g", "any"), (("f", SELF, "_bins", 0),), ()) for c in p.conds[:e.ncond])
+            if strip_epochs(e.value) == ("f", SECOND, "_bins", 0) and own_zero:
+                seen_plain = True
+                continue
+            rep.bad("C12.join-cells", where, f"block store {nshow(e.value)}", f"join overwrites all cells with {nshow(e.value)} on a path that has not established that every own cell is zero "
+                    "(or with something other than the operand's cells)", e.where())
+            okc = False
+            continue
         if not is_full_range(prog, ctx, "_bins", idx):
             rep.bad("C12.join-cells", where, f"range {nshow(idx)}", f"the loop covers {nshow(idx)}, not exactly range(width*depth)", e.where())
             okc = False
